@@ -24,6 +24,15 @@ def run_property(prop_id: str, tier: str, root: str, seed: int,
             idx = Index(root, overrides=overrides)
             rep.count('index.modules', len(idx.modules))
             rep.count('index.functions', len(idx.funcs))
+            rep.count('index.locals_alpha_converted', len(idx.alpha_renamed))
+            if idx.alpha_renamed:
+                eg = ', '.join(f'{q}: {a} analysed as {b}'
+                               for _, q, a, b in idx.alpha_renamed[:5])
+                rep.notes.append(
+                    f'{len(idx.alpha_renamed)} function locals were renamed '
+                    'since the rules were written and are analysed (and '
+                    'quoted in reports) under their reference names; this is '
+                    'an alpha-conversion, see sa/alpha.py (' + eg + ')')
             mod.run(idx, rep, tier)
             if tier == 'thorough' and overrides is None:
                 from . import selftest
